@@ -91,6 +91,9 @@ def build_part(spec):
 _LAST_PARTS = []
 
 
+_MUTATE_PARTS = [False]
+
+
 def build_space(spec):
     """Builds the space; the component wrappers of a compound are remembered in _LAST_PARTS (the
     compound snapshots them at construction: mutating them afterwards must have no effect)."""
@@ -101,7 +104,14 @@ def build_space(spec):
     if k == "Compound":
         parts = [build_part(p) for p in spec["parts"]]
         _LAST_PARTS.extend(parts)
-        return B.CompoundStateSpace(parts, list(spec["weights"]))
+        sp = B.CompoundStateSpace(parts, list(spec["weights"]))
+        if _MUTATE_PARTS[0]:
+            # the compound copied its components: what happens to the wrapper objects afterwards
+            # must not reach it (nor a problem definition created from it later)
+            for q in parts:
+                if hasattr(q, "set_longest_valid_segment_fraction"):
+                    q.set_longest_valid_segment_fraction(0.77)
+        return sp
     if k == "SE2":
         return B.SE2StateSpace(spec["weight"], [tuple(x) for x in spec["bounds"]])
     if k == "SE3":
@@ -236,9 +246,14 @@ def run_scenario(scn, validity=None, goal_fault=None, log=None, goal_ref=None):
     """Executes the scenario's calls through oxmpl_py. Returns the list of call results in the
     same shape as oxsim's `result_json`."""
     spec = scn["space"]
+    _MUTATE_PARTS[0] = bool(scn["params"].get("mutate_components_after_compound"))
     space = build_space(spec)
+    _MUTATE_PARTS[0] = False
     prob = scn["problems"][0]
     worlds = {}
+    # history-dependent callback: the k-th validity query of the scenario answers False
+    flip_at = int(scn["params"].get("validity_false_at", 0))
+    vcount = [0]
 
     def world_of(pi):
         wi = scn["problems"][pi]["world"]
@@ -273,7 +288,8 @@ def run_scenario(scn, validity=None, goal_fault=None, log=None, goal_ref=None):
 
     def default_validity(w):
         def cb(s):
-            a = w.valid(s)
+            vcount[0] += 1
+            a = (vcount[0] != flip_at) and w.valid(s)
             if log is not None:
                 log.append((enc(s), a))
             return a
